@@ -312,12 +312,19 @@ func (w *W) convert(v Value, from, to types.Type) Value {
 			return s
 		}
 	}
-	if _, ok := tu.(*types.Pointer); ok {
+	if pt, ok := tu.(*types.Pointer); ok {
 		if p, ok := v.(PtrV); ok {
+			// unsafe.Pointer -> *T is only supported when it undoes a *T -> unsafe.Pointer
+			if p.C != nil && !types.Identical(p.C.T.Underlying(), pt.Elem().Underlying()) {
+				w.unsupported(fmt.Sprintf("pointer type punning %s -> %s", p.C.T, pt.Elem()))
+			}
 			return p
 		}
 	}
 	if b, ok := tu.(*types.Basic); ok && b.Kind() == types.UnsafePointer {
+		if p, ok := v.(PtrV); ok {
+			return p
+		}
 		w.unsupported("conversion to unsafe.Pointer")
 	}
 	w.unsupported(fmt.Sprintf("conversion %s -> %s", from, to))
@@ -633,6 +640,44 @@ func (w *W) builtin(fr *frame, name string, args []Value, call *ssa.CallCommon) 
 			}
 		}
 		return TupleV{}
+	case "SliceData":
+		s := args[0].(SliceV)
+		if s.Nil || s.Cap == 0 {
+			return PtrV{}
+		}
+		return PtrV{C: s.Arr.Kids[s.Off]}
+	case "StringData":
+		// immutable: materialise a private byte array
+		s := args[0].(StrV)
+		if len(s.B) == 0 {
+			return PtrV{}
+		}
+		sl := w.makeByteSlice(s.B)
+		return PtrV{C: sl.Arr.Kids[0]}
+	case "String", "Slice":
+		p := args[0].(PtrV)
+		n := int(w.concInt(w.termOf(args[1]), true, "unsafe."+name+" length"))
+		if n == 0 {
+			if name == "String" {
+				return StrV{}
+			}
+			return SliceV{Nil: p.C == nil}
+		}
+		if p.C == nil || p.C.Up == nil {
+			w.unsupported("unsafe." + name + " on a pointer that is not an array element")
+		}
+		arr, idx := p.C.Up, p.C.Idx
+		if idx+n > len(arr.Kids) {
+			w.unsupported("unsafe." + name + " beyond the backing array")
+		}
+		if name == "Slice" {
+			return SliceV{Arr: arr, Off: idx, Len: n, Cap: n}
+		}
+		bs := make([]*smt.Term, n)
+		for i := range bs {
+			bs[i] = w.load(arr.Kids[idx+i]).(*smt.Term)
+		}
+		return StrV{B: bs}
 	case "ssa:wrapnilchk":
 		p := args[0].(PtrV)
 		if p.C == nil && p.Alts == nil {
